@@ -86,6 +86,10 @@ impl Sched {
         let mut st = self.st.lock().unwrap();
         debug_assert_eq!(st.current, me);
         self.decide(&mut st, me, site);
+        if st.current == me {
+            // nobody else has to wake up
+            return;
+        }
         self.cv.notify_all();
         while st.current != me {
             st = self.cv.wait(st).unwrap();
